@@ -98,7 +98,8 @@ def entry (older : List Node) (nd : Node) : Entry (NT R) :=
        let ec := refExpr t c
        [(refKey len c, fun a => agg o sz n F (fvMask L ec)
           (divNT o (mulNT o a (valNT o sz L (.prod v ec))) (valNT o sz L ec)))]
-   | .cat v parts => (catChildren o sz L n F v () parts 0).map (fun c => (leafKey c.1, c.2))⟩
+   | .cat v parts =>
+       (catChildren o sz L n F v (fvMask L (.cat v parts)) parts 0).map (fun c => (leafKey c.1, c.2))⟩
 
 /-- the tape of the DAG, newest entry first -/
 def entries : List Node → List (Entry (NT R))
